@@ -53,6 +53,7 @@ def parseResp (r : String) : Resp R :=
   if r.startsWith "ret" then .ret (parseInt (r.drop 3).toString) false
   else if r == "def" then .ret 0 false
   else if r.startsWith "ans" then .answer ((r.drop 3).toString.toNat?.getD 0)
+  else if r == "panE" then .panic ""                 -- `.panics("")`: the empty message
   else if r.startsWith "pan" then .panic ("boom" ++ (r.drop 3).toString)
   else if r == "unm" then .unmock
   else .applyDefaultImpl
@@ -405,10 +406,11 @@ open Unimock.Codegen
 /-! ## macro shapes (`shape` lines): print the code-generation model's facts -/
 
 def parseRecv : String → Recv
-  | "ref" => .ref | "mut" => .mutRef | "own" => .owned | "rc" => .rc | "arc" => .arc | _ => .pinMut
+  | "ref" => .ref | "mut" => .mutRef | "own" => .owned | "rc" => .rc | "arc" => .arc
+  | "tref" => .typedRef | "tmut" => .typedMut | _ => .pinMut
 
 def parsePClass : String → PClass
-  | "own" => .owned | "ref" => .ref | "refref" => .refRef | "mut" => .mutRef | "imp" => .mutImpossible | _ => .slice
+  | "own" => .owned | "ref" => .ref | "refref" => .refRef | "mut" => .mutRef | "imp" => .mutImpossible | "mutdyn" => .mutDyn | _ => .slice
 
 def parseParams (s : String) : List Param :=
   ((s.splitOn ",").filter (· ≠ "")).map fun x =>
